@@ -402,11 +402,10 @@ fn parse_import(
 ) -> Result<Declaration, Error>
 {
 	let filename = parse_quoted_path(tokens)?;
+	// Errors about the import are about its path, not just the keyword.
+	let location = tokens.location_of_span(Some(location_of_import));
 	consume(Token::Semicolon, tokens)?;
-	let declaration = Declaration::Import {
-		filename,
-		location: location_of_import,
-	};
+	let declaration = Declaration::Import { filename, location };
 	Ok(declaration)
 }
 
